@@ -33,38 +33,10 @@ Proof.
 Qed.
 
 Theorem chain_class : forall wf,
-  wf_ok wf = true -> forallb single_input wf = true ->
-  comb_all_prev_class wf = true -> empty_comb_class wf = true ->
-  model_run wf = Some (spec_run wf).
+  wf_ok wf = true -> forallb single_input wf = true -> model_run wf = Some (spec_run wf).
 Proof.
-  intros wf H1 H2 H3 H4. apply partial. unfold c03_domain.
-  rewrite H1, (single_input_separate wf H2), H3, H4. reflexivity.
-Qed.
-
-(* without combiners the two side conditions hold by themselves *)
-Definition no_combiner (nd : node) : bool := is_nil (n_comb nd).
-Lemma no_combiner_classes wf : forallb no_combiner wf = true -> comb_all_prev_class wf = true /\ empty_comb_class wf = true.
-Proof.
-  intros H. rewrite forallb_forall in H. split; apply on_nodes_intro; intros n e nd Hnd; specialize (H nd Hnd);
-    unfold no_combiner in H; apply is_nil_true in H.
-  - unfold comb_all_prev_ok. rewrite H.
-    destruct (ups (spec_table wf) (n_fields nd)) as [|u us] eqn:EU; [reflexivity|].
-    destruct (n_split nd); [reflexivity|]. cbn [is_nil negb andb].
-    (* some inherited axis exists and the combiner is empty *)
-    assert (Hu : In u (ups (spec_table wf) (n_fields nd))) by (rewrite EU; left; reflexivity).
-    apply ups_in in Hu. destruct Hu as [Hb HF].
-    pose proof (StateWfNode.up_axes_incl (spec_table wf) (n_fields nd) u Hb) as Hi.
-    unfold F in HF. destruct (s_faxes_of (spec_table wf) u) as [|k ks] eqn:EF; [contradiction|].
-    destruct (forallb (fun k0 => memk k0 []) (up_axes (spec_table wf) (n_fields nd))) eqn:EFA; [|reflexivity].
-    rewrite forallb_forall in EFA. specialize (EFA k (Hi k (or_introl eq_refl))). discriminate EFA.
-  - unfold empty_comb_ok. rewrite H. reflexivity.
-Qed.
-
-Theorem chain_nocomb : forall wf,
-  wf_ok wf = true -> forallb single_input wf = true -> forallb no_combiner wf = true ->
-  model_run wf = Some (spec_run wf).
-Proof.
-  intros wf H1 H2 H3. destruct (no_combiner_classes wf H3) as [H4 H5]. apply chain_class; assumption.
+  intros wf H1 H2. apply partial. unfold c03_domain.
+  rewrite H1, (single_input_separate wf H2). reflexivity.
 Qed.
 
 (* a concrete, non-trivial member: N0 split over two fields -> N1 relay -> N2 with an own splitter and a
@@ -75,9 +47,8 @@ Definition chain_example : workflow :=
     {| n_fields := [BSplit [3; 4]%Z; BUp 1; BUp 1]; n_split := [0]; n_comb := [(0, 0)] |};
     {| n_fields := [BUp 2]; n_split := []; n_comb := [] |} ].
 Lemma chain_example_in_class :
-  wf_ok chain_example = true /\ forallb single_input chain_example = true /\
-  comb_all_prev_class chain_example = true /\ empty_comb_class chain_example = true.
-Proof. repeat split; vm_compute; reflexivity. Qed.
+  wf_ok chain_example = true /\ forallb single_input chain_example = true.
+Proof. split; vm_compute; reflexivity. Qed.
 
 (* fan-in of independent origins inside C03_partial's class *)
 Definition fanin_example : workflow :=
@@ -197,18 +168,10 @@ Proof.
 Qed.
 
 Theorem fanin_class : forall wf,
-  wf_ok wf = true -> independent_inputs wf = true ->
-  comb_all_prev_class wf = true -> empty_comb_class wf = true ->
-  model_run wf = Some (spec_run wf).
+  wf_ok wf = true -> independent_inputs wf = true -> model_run wf = Some (spec_run wf).
 Proof.
-  intros wf H1 H2 H3 H4. apply partial. unfold c03_domain.
-  rewrite H1, (independent_separate wf H2), H3, H4. reflexivity.
-Qed.
-Theorem fanin_nocomb : forall wf,
-  wf_ok wf = true -> independent_inputs wf = true -> forallb no_combiner wf = true ->
-  model_run wf = Some (spec_run wf).
-Proof.
-  intros wf H1 H2 H3. destruct (no_combiner_classes wf H3) as [H4 H5]. apply fanin_class; assumption.
+  intros wf H1 H2. apply partial. unfold c03_domain.
+  rewrite H1, (independent_separate wf H2). reflexivity.
 Qed.
 Lemma fanin_example_independent : independent_inputs fanin_example = true.
 Proof. vm_compute. reflexivity. Qed.
